@@ -769,6 +769,7 @@ result_type parse_url_impl(std::string_view user_input,
             url.username = base_url->username;
             url.password = base_url->password;
             url.host = base_url->host;
+            url.host_type = base_url->host_type;
             url.port = base_url->port;
             // cloning the base path includes cloning the has_opaque_path flag
             url.has_opaque_path = base_url->has_opaque_path;
@@ -778,6 +779,7 @@ result_type parse_url_impl(std::string_view user_input,
             url.update_base_authority(base_url->get_href(),
                                       base_url->get_components());
             url.update_host_to_base_host(base_url->get_hostname());
+            url.host_type = base_url->host_type;
             url.update_base_port(base_url->retrieve_base_port());
             // cloning the base path includes cloning the has_opaque_path flag
             url.has_opaque_path = base_url->has_opaque_path;
@@ -848,11 +850,13 @@ result_type parse_url_impl(std::string_view user_input,
             url.username = base_url->username;
             url.password = base_url->password;
             url.host = base_url->host;
+            url.host_type = base_url->host_type;
             url.port = base_url->port;
           } else {
             url.update_base_authority(base_url->get_href(),
                                       base_url->get_components());
             url.update_host_to_base_host(base_url->get_hostname());
+            url.host_type = base_url->host_type;
             url.update_base_port(base_url->retrieve_base_port());
           }
           state = state::PATH;
@@ -1119,8 +1123,10 @@ result_type parse_url_impl(std::string_view user_input,
             // Set url's host to base's host.
             if constexpr (result_type_is_ada_url) {
               url.host = base_url->host;
+              url.host_type = base_url->host_type;
             } else {
               url.update_host_to_base_host(base_url->get_host());
+              url.host_type = base_url->host_type;
             }
             // If the code point substring from pointer to the end of input does
             // not start with a Windows drive letter and base's path[0] is a
@@ -1226,10 +1232,12 @@ result_type parse_url_impl(std::string_view user_input,
           ada_log("FILE base non-null");
           if constexpr (result_type_is_ada_url) {
             url.host = base_url->host;
+            url.host_type = base_url->host_type;
             url.path = base_url->path;
             url.query = base_url->query;
           } else {
             url.update_host_to_base_host(base_url->get_hostname());
+            url.host_type = base_url->host_type;
             url.update_base_pathname(base_url->get_pathname());
             if (base_url->has_search()) {
               // get_search() returns "" for an empty query string (URL ends
